@@ -169,7 +169,7 @@ def r4(ctx):
                    "(a declared `MAX` must not turn into the Default of the type)")
     P = ctx.program()
     bs = [b for b in P.bodies.values() if b.crate == "asn1rs_model" and "asn::size::Size" in b.path and b.name == "try_from"
-          and b.def_kind == "AssocFn" and "Peekable" in b.path]
+          and b.def_kind == "AssocFn" and "Peekable" in b.path and "::promoted[" not in b.path]
     rc = [b for b in P.find("asn1rs_model", "::reconsider_constraints") if b.def_kind == "AssocFn"]
     if len(bs) != 1 or len(rc) != 1:
         ctx.fail(rule, "anchor-lost:Size::try_from/reconsider_constraints", "matched %d / %d bodies" % (len(bs), len(rc)))
@@ -237,7 +237,7 @@ def r6(ctx):
                    "sentinel; any other literal or a reference keeps Size::Range")
     P = ctx.program()
     bs = [b for b in P.bodies.values() if b.crate == "asn1rs_model" and "asn::size::Size" in b.path and b.name == "try_from"
-          and b.def_kind == "AssocFn" and "Peekable" in b.path]
+          and b.def_kind == "AssocFn" and "Peekable" in b.path and "::promoted[" not in b.path]
     if len(bs) != 1:
         ctx.fail(rule, "anchor-lost:Size::try_from", "matched %d bodies" % len(bs))
         return
@@ -266,23 +266,8 @@ def r6(ctx):
         return X.strip(e)
     LO = option_of(O.operand(rng[2]["rv"]["ops"][0], rng[0], rng[1]))
     HI = option_of(O.operand(rng[2]["rv"]["ops"][1], rng[0], rng[1]))
-    # the verdict may be computed into a bool first (`let any = matches!(..)`): then the decision region ends where it becomes true
-    to_bb, other = anyb[0], rng[0]
-    for s_bb, ex, val in R.path_conditions(b, O, anyb[0]):
-        e = X.strip(ex)
-        if e[0] == "phi" and all(a[0] == "const" for a in e[1]):
-            t = b.blocks[s_bb]["term"]
-            l = t["op"]["pl"]["l"] if t["op"].get("k") in ("copy", "move") and not t["op"]["pl"]["p"] else None
-            # follow one copy
-            ds = b.defs.get(l, ())
-            if len(ds) == 1 and ds[0][2] == "assign" and ds[0][3]["k"] == "use" and ds[0][3]["op"].get("k") in ("copy", "move") and not ds[0][3]["op"]["pl"]["p"]:
-                l = ds[0][3]["op"]["pl"]["l"]
-                ds = b.defs.get(l, ())
-            tr = [d[0] for d in ds if d[2] == "assign" and d[3]["k"] == "use" and d[3]["op"].get("k") == "const" and bool(int(d[3]["op"].get("val", "0"))) == val]
-            fa = [d[0] for d in ds if d[2] == "assign" and d[3]["k"] == "use" and d[3]["op"].get("k") == "const" and bool(int(d[3]["op"].get("val", "0"))) != val]
-            if len(tr) == 1 and fa:
-                to_bb, other = tr[0], fa[0]
-    entry, paths = R.decision_paths(b, O, to_bb, other)
+    # the verdict may be computed into a bool first (`let any = matches!(..)`, `let any = if .. { a || b } else { c && d }`)
+    paths = R.verdict_paths(b, O, anyb[0], rng[0])
     if not paths:
         ctx.fail(rule, "anchor-lost:decision", "the decision between Size::Any and Size::Range could not be enumerated", span_loc(anyb[2]["sp"]))
         return
@@ -293,9 +278,62 @@ def r6(ctx):
     S = sentinels[0] if len(sentinels) == 1 else None
     recognised = 0
     n = 0
+    def side_of(e):
+        while e[0] in ("ref", "deref", "mut"):
+            e = e[1]
+        e = X.strip(e)
+        return "lo" if e == LO else "hi" if e == HI else None
+
+    def structure_facts(k):
+        """facts a bound equal to the constant structure `k` has"""
+        f = {}
+        if k is None or k[0] != "agg":
+            return None
+        if k[3] == "None":
+            f["opt"] = ("in", frozenset({0}))
+            return f
+        if k[3] != "Some" or not k[4]:
+            return None
+        f["opt"] = ("in", frozenset({1}))
+        inner = k[4][0][1]
+        while inner[0] in ("ref", "deref", "mut"):
+            inner = inner[1]
+        if inner[0] == "agg" and inner[4]:
+            f["variant_name"] = inner[3]
+            c = F.strip_casts(inner[4][0][1])
+            if inner[3] == "Lit" and c[0] == "const":
+                f["lit"] = ("in", frozenset({c[1]}))
+        return f
+
     for path in paths:
         facts = {"lo": {}, "hi": {}}
         for s_bb, c, v in path:
+            c = F.strip_casts(c)
+            while c[0] == "un" and c[1] == "Not":
+                c = F.strip_casts(c[2])
+                v = ("in" if v[0] == "not" else "not", v[1]) if v[1] == frozenset({0}) else v
+            if c[0] == "call" and X.last_seg(c[1] or "") in ("is_none", "is_some") and len(c[3]) == 1:
+                side = side_of(c[3][0])
+                if side is None:
+                    continue
+                recognised += 1
+                truth = (v == ("not", frozenset({0})))
+                absent = truth if X.last_seg(c[1]) == "is_none" else not truth
+                facts[side]["opt"] = ("in", frozenset({0 if absent else 1}))
+                continue
+            if c[0] == "call" and X.last_seg(c[1] or "") in ("eq", "ne") and len(c[3]) == 2:
+                sides = [side_of(a) for a in c[3]]
+                if (sides[0] is None) == (sides[1] is None):
+                    continue
+                side = sides[0] or sides[1]
+                k = R.const_structure(P, b, c[3][1] if sides[0] else c[3][0])
+                recognised += 1
+                truth = (v == ("not", frozenset({0})))
+                equal = truth if X.last_seg(c[1]) == "eq" else not truth
+                sf = structure_facts(k)
+                if equal and sf is not None:
+                    facts[side].update(sf)
+                continue
             base, shape = _peel(c)
             side = "lo" if X.strip(base) == LO else "hi" if X.strip(base) == HI else None
             if side is None:
